@@ -471,6 +471,22 @@ Proof.
     + rewrite run_ops_cons, call_err by (auto; lia). reflexivity.
 Qed.
 
+(* non-recursive work either runs and gives everything back, or is refused *)
+Lemma work_restores : forall limit st ks, good st ->
+  exec_item limit st (Work ks) = Ok st \/ exec_item limit st (Work ks) = Err E_InvalidOperation.
+Proof.
+  intros limit st ks G. pose proof (descent_run limit ks st G) as D. unfold exec_item.
+  destruct (desc_ok limit (depth (cur st)) ks).
+  - destruct D as (st' & R1 & R2). left. rewrite R1. cbn [bind]. exact R2.
+  - right. rewrite D. reflexivity.
+Qed.
+
+(* ... so a nested render whose refusal is swallowed leaves the accounting exactly where it was *)
+Lemma try_noop : forall limit st ks, good st -> exec_try limit st ks = Ok st.
+Proof.
+  intros limit st ks G. unfold exec_try. destruct (work_restores limit st ks G) as [E|E]; rewrite E; reflexivity.
+Qed.
+
 Lemma exec_item_spec : forall limit st i, good st ->
   if admitted limit (depth (cur st)) i
   then exists st', exec_item limit st i = Ok st' /\ depth (cur st') = depth (cur st) + gain i /\ good st'
